@@ -325,6 +325,10 @@ def decide(prop, tier, seed, replay=None):
             # break after 20 s of real time): nothing is processed any more - the scenario is the concrete failing input
             violations.append((sid, {'line': 0, 'prop': prop, 'clause': 'eventLoopFrozen', 'sigs': [],
                                      'detail': 'a synchronous spin inside bubus froze the event loop: ' + err[:300]}))
+        elif err and key not in ('budget', 'watchdog-in-bubus', 'deadlock', 'watchdog') and 'harness' in relevant:
+            # the scenario could not be run or recorded on this code at all (an attribute the tracing wrappers rely on is gone, a
+            # wrapper raised): nothing of the correspondence was checked on it - that is a broken tie, not a pass
+            diverged.append((sid, {'line': 0, 'why': 'harness: the scenario could not be run and recorded on this code', 'raw': err[:400]}))
         elif key in ('budget', 'watchdog-in-bubus', 'deadlock') and 'rest' in relevant:
             diverged.append((sid, {'line': 0, 'why': f'rest: the real system never comes to rest ({key}: ' +
                                    {'budget': 'loop-iteration budget exhausted while virtual time stands still or work never ends',
@@ -397,6 +401,19 @@ def decide(prop, tier, seed, replay=None):
                 out_lines.append(f'VIOLATION property={prop} replay={replay_path}')
                 exit_code = 1
                 break
+        if exit_code == 0 and len(diverged_other) * 4 > max(1, len(by_sid)):
+            # more than a quarter of all real histories leave the model (on whatever facet): the model no longer describes this
+            # code, and none of the theorems - this property's included - can be said to be about it
+            sid_, dv_ = diverged_other[0]
+            sc_ = by_sid[sid_]['sc']
+            replay_path = os.path.join('replays', f"{prop}-corr-{hashlib.sha256(json.dumps(sc_, sort_keys=True).encode()).hexdigest()[:12]}.json")
+            json.dump({'property': prop, 'kind': 'broken-correspondence', 'obligation': dv_,
+                       'note': f'{len(diverged_other)} of {len(by_sid)} real histories are not accepted by the model (facets outside this property, but too many to call the model a model of this code)',
+                       'theorems_no_longer_tied_to_the_code': sorted(my_thms), 'scenario': sc_, 'cfg': by_sid[sid_]['cfg'],
+                       'diverging_scenarios': len(diverged_other), 'how_to_replay': f'./check {prop} --replay {replay_path}'},
+                      open(os.path.join(ROOT, replay_path), 'w'), indent=1)
+            out_lines.append(f'VIOLATION property={prop} replay={replay_path} no-failing-input-found')
+            exit_code = 1
     findings_text = {f['id']: f['what'] for f in known['findings'] if f['property'] == prop}
     for s, n in sorted(knowns.items()):
         out_lines.append(f'KNOWN-FINDING: property={prop} {s} {findings_text.get(s, "")} (seen in {n} checks of this run)')
